@@ -52,6 +52,7 @@ type Run struct {
 	findings   map[string]Finding
 	exhaustive bool
 	minDistinct int
+	violTags   map[string]int
 }
 
 func NewRun(prop, level string) *Run {
@@ -197,8 +198,15 @@ func (r *Run) Violation(tag string, replay interface{}, what string) {
 	r.mu.Lock()
 	r.violations++
 	n := r.violations
+	if r.violTags == nil {
+		r.violTags = map[string]int{}
+	}
+	r.violTags[tag]++
 	r.mu.Unlock()
 	if n > 25 {
+		if n <= 400 && os.Getenv("VERIF_VERBOSE") != "" {
+			fmt.Printf("  (more) %s: %s\n", tag, clip(oneLine(what), 300))
+		}
 		return // enough witnesses; keep counting
 	}
 	dir := filepath.Join(VerifDir, "replays")
@@ -286,6 +294,14 @@ func (r *Run) Finish() {
 		ev["assumptions"] = []string{}
 	}
 	viol, inc := r.violations, len(r.inconcl)
+	if viol > 25 {
+		tags := make([]string, 0, len(r.violTags))
+		for t := range r.violTags {
+			tags = append(tags, t)
+		}
+		sort.Strings(tags)
+		fmt.Printf("violation tags (%d): %s\n", len(tags), clip(strings.Join(tags, " "), 6000))
+	}
 	r.mu.Unlock()
 	data, err := json.MarshalIndent(ev, "", " ")
 	if err != nil {
